@@ -177,7 +177,8 @@ SELFTEST_PER_SCENARIO = 3
 
 def obligations(tier, seed):
     q = tier == 'quick'
-    for n in ((4, 5, 6, 8, 9) if q else (4, 5, 6, 7, 8, 9, 12, 13, 16)):
+    # every residue of n mod 4 (the truncation to even length must floor for both kinds of odd n)
+    for n in ((2, 3, 4, 5, 6, 7, 8, 9) if q else (2, 3, 4, 5, 6, 7, 8, 9, 11, 12, 13, 15, 16)):
         yield Ob('definition', {'n': n}, query_ms=60000, timeout_s=1500)
     for n in ((4, 7) if q else (4, 7, 12)):
         yield Ob('linearity', {'n': n}, query_ms=60000, timeout_s=1500)
